@@ -60,6 +60,9 @@ pub enum Class {
     InplaceUsesClosureParam,
     ClosureReassignsCapturedFnVar,
     SiblingClosuresReassignSharedFnVar,
+    IfSelectedLambdaCalledInPlace,
+    IfSelectedNamedFnCalledInPlace,
+    IfSelectedGlobalOrLambdaInHelper,
     // ---- known findings on the pinned tree (rate per dsp call in `rate()`)
     LocalCaptureBound,
     ReturnedBound,
@@ -95,7 +98,7 @@ pub enum Class {
     EscapingClosureCapturesLetBoundBox,
 }
 
-pub const STABLE: [Class; 39] = [
+pub const STABLE: [Class; 42] = [
     Class::LocalNoCapture,
     Class::InplaceCapturing,
     Class::GlobalClosureCalled,
@@ -135,6 +138,9 @@ pub const STABLE: [Class; 39] = [
     Class::InplaceUsesClosureParam,
     Class::ClosureReassignsCapturedFnVar,
     Class::SiblingClosuresReassignSharedFnVar,
+    Class::IfSelectedLambdaCalledInPlace,
+    Class::IfSelectedNamedFnCalledInPlace,
+    Class::IfSelectedGlobalOrLambdaInHelper,
 ];
 /// Constructs that release a heap object twice (logged `invalid HeapIdx`) or use it after release
 /// (`BoxLoad: invalid heap index`) on the pinned tree. One scenario in twelve contains exactly one
@@ -212,6 +218,9 @@ impl Class {
             Class::MainClosureInplaceUsesCapturedClosure => "closure-made-by-main-whose-in-place-lambda-uses-a-captured-closure",
             Class::TwoInplaceLambdasSameClosureParam => "two-in-place-lambdas-using-the-same-closure-parameter",
             Class::InplaceUsesClosureParam => "in-place-lambda-using-a-closure-parameter",
+            Class::IfSelectedLambdaCalledInPlace => "capturing-lambda-selected-by-if-and-called-in-place",
+            Class::IfSelectedNamedFnCalledInPlace => "named-function-selected-by-if-and-called-in-place",
+            Class::IfSelectedGlobalOrLambdaInHelper => "global-closure-or-lambda-selected-by-if-in-a-helper-and-called-in-place",
             Class::ClosureReassignsCapturedFnVar => "escaped-closure-reassigning-its-captured-function-variable",
             Class::SiblingClosuresReassignSharedFnVar => "sibling-closures-one-reassigning-one-calling-a-shared-function-variable",
             Class::ClosureCapturingClosure => "local-closure-capturing-a-local-closure",
@@ -460,6 +469,23 @@ impl Inst {
                     "fn mkh{i}(q){{\n  |x| x * q\n}}\nlet fh{i} = mkh{i}({k})\nfn once{i}(h:(float)->float, x:float){{\n  (|a| h(a) + 1.0)(x)\n}}\n"
                 ),
                 format!("  let r{i} = once{i}(fh{i}, now);\n"),
+                format!("r{i}"),
+            ),
+            Class::IfSelectedLambdaCalledInPlace => (
+                String::new(),
+                format!("  let g{i} = {k};\n  let r{i} = (if (now % 2.0 > 0.5) {{ |x| x * g{i} }} else {{ |x| x + g{i} }})(1.0);\n"),
+                format!("r{i}"),
+            ),
+            Class::IfSelectedNamedFnCalledInPlace => (
+                format!("fn dbl{i}(x:float){{\n  x * 2.0\n}}\nfn trp{i}(x:float){{\n  x * {k}\n}}\n"),
+                format!("  let r{i} = (if (now % 2.0 > 0.5) {{ dbl{i} }} else {{ trp{i} }})(1.0);\n"),
+                format!("r{i}"),
+            ),
+            Class::IfSelectedGlobalOrLambdaInHelper => (
+                format!(
+                    "fn mkg{i}(g:float){{\n  |x| x * g\n}}\nlet soft{i} = mkg{i}(0.5)\nfn shape{i}(mode:float, drive:float, x:float){{\n  (if (mode > 0.5) {{ |v| v * drive }} else {{ soft{i} }})(x)\n}}\n"
+                ),
+                format!("  let r{i} = shape{i}(now % 2.0, {k}, 1.0);\n"),
                 format!("r{i}"),
             ),
             Class::ClosureReassignsCapturedFnVar => (
